@@ -40,6 +40,29 @@ def rnd(rng, a, b, digits=3):
     return round(rng.uniform(a, b), digits)
 
 
+def spreading_values(sv, ridges):
+    """the spreading velocity at every ridge coordinate the way parse_entries assigns it: a number (or a list with one number in
+    all) for every point, otherwise the numbers of the list in document order, one per ridge coordinate; None when the list
+    does not have exactly one number per coordinate (the implementation rejects it)"""
+    if isinstance(sv, (int, float)):
+        return [[float(sv) for _ in ridge] for ridge in ridges]
+    flat = []
+    for e in sv:
+        if isinstance(e, list) and len(e) == 2 and isinstance(e[1], list):
+            for row in e[1]:
+                flat.extend(float(x) for x in row)
+    n = sum(len(r) for r in ridges)
+    if len(flat) == 1:
+        return [[flat[0] for _ in ridge] for ridge in ridges]
+    if len(flat) != n:
+        return None
+    out, k = [], 0
+    for ridge in ridges:
+        out.append(flat[k:k + len(ridge)])
+        k += len(ridge)
+    return out
+
+
 class Elab:
     """JSON world -> OCaml term `float world` (and bookkeeping the checks need)"""
 
@@ -118,15 +141,15 @@ class Elab:
             return "TChapman (%s, %s, %s, %s, %s, %s, %s)" % (
                 mn, mx, o, ml(m.get("thermal conductivity", 2.5)), ml(m.get("heat generation per unit volume", 1.e-6)),
                 ml(m.get("top heat flux", 0.055)), ml(m.get("top temperature", 293.15)))
-        if k in ("half space model", "plate model") and isinstance(m.get("spreading velocity", 0.05), (int, float)):
+        if k in ("half space model", "plate model") and spreading_values(m.get("spreading velocity", 0.05), m["ridge coordinates"]) is not None:
             dtr = PI / 180.0 if self.spherical else 1.0
             ridges = [[(p[0] * dtr, p[1] * dtr) for p in ridge] for ridge in m["ridge coordinates"]]
-            sv = float(m.get("spreading velocity", 0.05))
+            svs = spreading_values(m.get("spreading velocity", 0.05), m["ridge coordinates"])
             return "%s (%s, %s, %s, %s, %s, %s, %s)" % (
                 "THalfSpace" if k == "half space model" else "TPlateModel", mn, mx, o,
                 ml(m.get("top temperature", 293.15)), ml(m.get("bottom temperature", -1)),
                 mlist([mlist([mpt(p) for p in ridge]) for ridge in ridges]),
-                mlist([mlist([ml(sv) for _ in ridge]) for ridge in ridges]))
+                mlist([mlist([ml(v) for v in vs]) for vs in svs]))
         if k == "plate model constant age":
             return "TPlateConstAge (%s, %s, %s, %s, %s, %s)" % (
                 mn, mx, o, ml(m.get("top temperature", 293.15)), ml(m.get("bottom temperature", -1)), ml(m.get("plate age", 80e3) * 31557600))
@@ -517,7 +540,7 @@ class Gen:
             x += r.choice([-1, 1]) * r.uniform(0.3, 1.0) * scale      # offset along a transform fault
         return out
 
-    def temp_model(self, kind, dmin, dmax, allow=("uniform", "linear", "adiabatic", "chapman"), centre=None, spherical=False):
+    def temp_model(self, kind, dmin, dmax, allow=("uniform", "linear", "adiabatic", "chapman"), centre=None, spherical=False, variable_spreading=0.3):
         r = self.r
         opts = [k for k in allow if k != "chapman" or kind == "continental plate"]
         if kind == "oceanic plate" and centre is not None and "linear" in allow:
@@ -553,6 +576,9 @@ class Gen:
             else:
                 m["spreading velocity"] = self.num(0.005, 0.15, 4)
                 m["ridge coordinates"] = self.ridges(centre, spherical)
+                if variable_spreading and r.random() < variable_spreading:
+                    # one value per ridge coordinate: [[time, [[v, v, ...]]], ...], one entry per ridge
+                    m["spreading velocity"] = [[float(i), [[self.num(0.005, 0.15, 4) for _p in ridge]]] for i, ridge in enumerate(m["ridge coordinates"])]
         elif k == "chapman":
             if r.random() < 0.6:
                 m["top temperature"] = r.choice([self.num(250, 400, 1), -1])
@@ -688,7 +714,7 @@ class Gen:
                 f["composition models"].append(self.random_comp_model(dmin, dmax))
         return f
 
-    def plume(self, name, spherical=False, centre=None):
+    def plume(self, name, spherical=False, centre=None, random_models=False):
         r = self.r
         n = r.randint(1, 5)
         if spherical:
@@ -742,6 +768,9 @@ class Gen:
             f["velocity models"] = [self.vel_model(dmin, dmax) for _ in range(r.choice([1, 2]))]
         if r.random() < 0.5:
             f["grains models"] = [self.grains_model(dmin, dmax) for _ in range(r.choice([1, 2]))]
+        if random_models and r.random() < 0.8:
+            # plumes have the deflected random model only
+            f.setdefault("grains models", []).append(self.random_grains_model(dmin, dmax, kinds=("random uniform distribution deflected",)))
         return f
 
     # ---- line features: subducting plates and faults --------------------------------------------------
@@ -945,7 +974,8 @@ class Gen:
         if r.random() < 0.3:
             w["thermal diffusivity"] = self.num(5e-7, 2e-6, 10)
         if r.random() < 0.5:
-            w["gravity model"] = {"model": "uniform", "magnitude": self.num(1, 15, 3)}
+            # the magnitude is a plain double in the schema: zero and negative values are legal documents too
+            w["gravity model"] = {"model": "uniform", "magnitude": self.num(1, 15, 3) if r.random() < 0.85 else r.choice([0.0, -self.num(1, 15, 3)])}
         if r.random() < 0.4:
             w["force surface temperature"] = True
 
